@@ -890,7 +890,7 @@ func (ts *TermStore) patterns(bv, body *Term) []*Term {
 				direct = true
 			}
 		}
-		if direct && (t.kind == kUF || (t.kind == kApp && (t.op == "seq.nth" || t.op == "select" || t.op == "str.at"))) {
+		if direct && (t.kind == kUF || (t.kind == kApp && (t.op == "seq.nth" || t.op == "select" || t.op == "str.at"))) && patternOK(t) {
 			out = append(out, t)
 			return
 		}
@@ -955,4 +955,65 @@ func (ts *TermStore) Skolemize(g *Term) *Term {
 		return ts.mk(kApp, "ite", SBool, g.args[0], ts.Skolemize(g.args[1]), ts.Skolemize(g.args[2]))
 	}
 	return g
+}
+
+// patternOK: SMT solvers only accept patterns built from function applications (no connectives / ite).
+func patternOK(t *Term) bool {
+	seen := map[int]bool{}
+	var walk func(t *Term) bool
+	walk = func(t *Term) bool {
+		if seen[t.id] {
+			return true
+		}
+		seen[t.id] = true
+		if t.kind == kQuant {
+			return false
+		}
+		if t.kind == kApp {
+			switch t.op {
+			case "ite", "not", "and", "or", "=>", "=", "<", "<=", ">", ">=":
+				return false
+			}
+		}
+		for _, a := range t.args {
+			if !walk(a) {
+				return false
+			}
+		}
+		return true
+	}
+	return walk(t)
+}
+
+// FreeBoundVars lists the bound variables occurring free in t.
+func (ts *TermStore) FreeBoundVars(t *Term) []*Term {
+	var out []*Term
+	seenV := map[int]bool{}
+	var walk func(t *Term, bound map[int]bool, seen map[int]bool)
+	walk = func(t *Term, bound map[int]bool, seen map[int]bool) {
+		if t.kind == kBound {
+			if !bound[t.id] && !seenV[t.id] {
+				seenV[t.id] = true
+				out = append(out, t)
+			}
+			return
+		}
+		if seen[t.id] {
+			return
+		}
+		seen[t.id] = true
+		if t.kind == kQuant {
+			nb := map[int]bool{t.args[0].id: true}
+			for k := range bound {
+				nb[k] = true
+			}
+			walk(t.args[1], nb, map[int]bool{})
+			return
+		}
+		for _, a := range t.args {
+			walk(a, bound, seen)
+		}
+	}
+	walk(t, map[int]bool{}, map[int]bool{})
+	return out
 }
